@@ -90,6 +90,21 @@ def jAnalysis : Except Err (Option Analysis) → Json
         | none => Json.null
         | some m => jList (jList jNat) m)]
 
+/-- the selected sub-table itself (`get(**kwargs)` then `filter_by_distance`): pair indices, counts, paired rows -/
+def jSelection (t : Table) (s : Sel) (d : Option (Rat × Rat)) : Json :=
+  match selectTable t s d with
+  | .error e => Json.mkObj [("err", e)]
+  | .ok df => Json.mkObj [
+      ("index", jList jNat (df.map (·.index))),
+      -- the ROW-wise keyword selection of `get_num_*(**kwargs)` on the full table
+      ("rowwise", Json.mkObj [("gt", jNat (getNumGroundTruth t s)), ("est", jNat (getNumEstimation t s)),
+        ("tp", jNat (getNumTP t s)), ("fp", jNat (getNumFP t s)), ("tn", jNat (getNumTN t s)),
+        ("fn", jNat (getNumFN t s))]),
+      ("num", Json.mkObj [("gt", jNat (getNumGroundTruth df)), ("est", jNat (getNumEstimation df)),
+        ("tp", jNat (getNumTP df)), ("fp", jNat (getNumFP df)), ("tn", jNat (getNumTN df)),
+        ("fn", jNat (getNumFN df))]),
+      ("paired", jNat (getPairResults df).length)]
+
 def jStatus (s : GtStatus) : Json :=
   Json.mkObj [("uuid", s.uuid), ("total", jList jNat s.total), ("tp", jList jNat s.tp),
     ("fp", jList jNat s.fp), ("tn", jList jNat s.tn), ("fn", jList jNat s.fn)]
@@ -131,6 +146,7 @@ def handle : Json → Except String Json := fun j => do
           ("tp", jExceptNat (numTP er t)), ("fp", jExceptNat (numFP er t)), ("tn", jExceptNat (numTN er t)),
           ("fn", jExceptNat (numFN er t))]),
         ("analyses", jList (fun (sd : Sel × Option (Rat × Rat)) => jAnalysis (analyze labels t sd.1 sd.2)) sels),
+        ("selections", jList (fun (sd : Sel × Option (Rat × Rat)) => jSelection t sd.1 sd.2) sels),
         ("status", Json.mkObj [("scenes", jList (fun fs => jList jStatus (getObjectStatus fs)) scenes),
           ("all", jList jStatus (getObjectStatus scenes.flatten))])])
   | "passfail" =>
